@@ -1372,15 +1372,24 @@ func (p *Parser) parseFuncParams() (map[string]ast.Expression, []*ast.Ident) {
 			p.nextToken()
 			expr := p.parseExpression(LOWEST)
 			if expr == nil {
+				if p.err == nil {
+					p.setTokenError(p.curToken, "invalid default value for parameter %s", ident.String())
+				}
 				return nil, nil
 			}
 			defaults[ident.String()] = expr
 			p.nextToken()
 		}
+		// What follows a parameter is a comma or, maybe on the next line, the
+		// closing parenthesis
+		p.eatNewlines()
 		if p.curTokenIs(token.COMMA) {
 			p.nextToken()
+			p.eatNewlines()
+		} else if !p.curTokenIs(token.RPAREN) && !p.curTokenIs(token.EOF) {
+			p.setTokenError(p.curToken, "expected a comma or ) after parameter %s (got %s)", ident.String(), p.curToken.Literal)
+			return nil, nil
 		}
-		p.eatNewlines()
 	}
 	return defaults, params
 }
